@@ -1,5 +1,6 @@
 import Driver.Util
 import Hv.Query.Routes
+import Hv.Query.Bucket
 
 /-! Line-protocol driver of domain C08 (same ops as `/verif/harness/c08.go`): the model's
     accelerated route and full-scan route for every query.
@@ -137,17 +138,30 @@ partial def parseGroup (s : String) : Option Group :=
 
 /-! ### state -/
 
+/-- the swamp: its records and its field buckets as the code keeps them (`Hv/Query/Bucket.lean`) -/
 structure DSt where
   cfg : Cfg
-  store : List Rec
+  st : BSt
 
-def upsert (store : List Rec) (k : String) (body : Option Value) (c u e : Int) : List Rec :=
+def DSt.store (d : DSt) : List Rec := d.st.store
+
+/-- the record a Set leaves behind (absent time fields keep their value) -/
+def merged (store : List Rec) (k : String) (body : Option Value) (c u e : Int) : Rec :=
   match store.find? (·.key == k) with
-  | none => store ++ [{ key := k, body := body, created := c, updated := u, expire := e }]
+  | none => { key := k, body := body, created := c, updated := u, expire := e }
   | some o =>
-    store.map (fun r => if r.key == k then
-      { r with body := body, created := if c != 0 then c else o.created,
-               updated := if u != 0 then u else o.updated, expire := if e != 0 then e else o.expire } else r)
+    { o with body := body, created := if c != 0 then c else o.created,
+             updated := if u != 0 then u else o.updated, expire := if e != 0 then e else o.expire }
+
+def upsert (cfg : Cfg) (st : BSt) (k : String) (body : Option Value) (c u e : Int) : BSt :=
+  stepPut cfg st (merged st.store k body c u e)
+
+/-- the tracking facts that are false, as findings -/
+def trackFlags (cfg : Cfg) : List String :=
+  (if !cfg.bucketNotifyInsert then ["C08-bucket-misses-insert"] else []) ++
+  (if !cfg.bucketNotifyUpdate then ["C08-bucket-misses-update"] else []) ++
+  (if !cfg.bucketNotifyDelete then ["C08-bucket-misses-delete"] else []) ++
+  (if !cfg.bucketPendingReplayed then ["C08-bucket-build-drops-pending"] else [])
 
 def renderItems (l : List Item) : String :=
   ",".intercalate (l.map (fun it => if it.2.isEmpty then it.1 else it.1 ++ "[" ++ "+".intercalate it.2 ++ "]"))
@@ -222,17 +236,17 @@ def optT : String → Option (Option Int)
 
 def step (d : DSt) (line : String) : DSt × String :=
   match line.splitOn " " with
-  | ["case", _] => ({ d with store := [] }, line)
+  | ["case", _] => ({ d with st := BSt.init }, line)
   | ["body", k, c, u, e, _hex, text] =>
     match c.toInt?, u.toInt?, e.toInt?, parseValue text.toList with
-    | some c, some u, some e, some (v, []) => ({ d with store := upsert d.store k (some v) c u e }, "ok")
+    | some c, some u, some e, some (v, []) => ({ d with st := upsert d.cfg d.st k (some v) c u e }, "ok")
     | _, _, _, _ => (d, "bad-op")
   | ["plain", k, c, u, e] =>
     match c.toInt?, u.toInt?, e.toInt? with
-    | some c, some u, some e => ({ d with store := upsert d.store k none c u e }, "ok")
+    | some c, some u, some e => ({ d with st := upsert d.cfg d.st k none c u e }, "ok")
     | _, _, _ => (d, "bad-op")
-  | ["del", k] => ({ d with store := d.store.filter (·.key != k) }, "ok")
-  | ["reload"] => (d, "ok")
+  | ["del", k] => ({ d with st := stepDel d.cfg d.st k }, "ok")
+  | ["reload"] => ({ d with st := stepB d.cfg d.st .reload }, "ok")
   | ["q", idx, ord, fr, lim, ft, tt, mx, filt] =>
     match slotOf idx, fr.toNat?, lim.toNat?, optT ft, optT tt, mx.toNat? with
     | some sl, some fr, some lim, some ft, some tt, some mx =>
@@ -243,14 +257,18 @@ def step (d : DSt) (line : String) : DSt × String :=
         if d.store.isEmpty then (d, "b=err:noswamp s=err:noswamp") else
         let q : Query := { slot := sl, asc := ord == "asc", from_ := fr, limit := lim, fromT := ft, toT := tt,
                            maxResults := mx, filter := g }
-        let b := bucketRoute d.cfg d.store q
+        -- the accelerated route on the buckets as the history left them; the query's own builds stay
+        let b := bucketRouteS d.cfg d.st q
+        let bSpec := bucketRoute d.cfg d.store q
         let s := scanRoute d.cfg d.store q
+        let d' := { d with st := afterQuery d.cfg d.st q }
         let sNd := cuts q && hasTies q.slot (scanRows q d.store)
         let bNd := match bucketRows d.cfg q d.store with
           | some rows => cuts q && hasTies q.slot rows
           | none => sNd
-        let fl := if bNd || sNd || b == s then "" else String.join ((explain d.cfg d.store q).map (fun f => "\t#F:" ++ f))
-        (d, "b=" ++ (if bNd then "nd" else renderItems b) ++ " s=" ++ (if sNd then "nd" else renderItems s) ++ fl)
+        let fs := (if b != bSpec then trackFlags d.cfg else []) ++ (if bSpec != s then explain d.cfg d.store q else [])
+        let fl := if bNd || sNd || b == s then "" else String.join ((if fs.isEmpty then ["C08-unexplained"] else fs).map (fun f => "\t#F:" ++ f))
+        (d', "b=" ++ (if bNd then "nd" else renderItems b) ++ " s=" ++ (if sNd then "nd" else renderItems s) ++ fl)
     | _, _, _, _, _, _ => (d, "bad-op")
   | _ => (d, "bad-op")
 
@@ -266,8 +284,10 @@ def run (args : List String) : IO UInt32 := do
     labelReattach := yes kv "labelReattach", pagedQueriesBypass := yes kv "pagedQueriesBypass",
     bucketChecksAttr := yes kv "bucketChecksAttr",
     lookupInDedupes := yes kv "lookupInDedupes", unionDedupes := yes kv "unionDedupes",
-    bucketWindowTimeOnly := yes kv "bucketWindowTimeOnly" }
-  lineLoop step { cfg := cfg, store := [] }
+    bucketWindowTimeOnly := yes kv "bucketWindowTimeOnly",
+    bucketNotifyInsert := yes kv "bucketNotifyInsert", bucketNotifyUpdate := yes kv "bucketNotifyUpdate",
+    bucketNotifyDelete := yes kv "bucketNotifyDelete", bucketPendingReplayed := yes kv "bucketPendingReplayed" }
+  lineLoop step { cfg := cfg, st := BSt.init }
   return 0
 
 end Driver.C08
